@@ -198,6 +198,31 @@ mod h {
         core::mem::forget(out);
     }
 
+    /// Distinct handler names get distinct ids, and an EMPTY raw payload stays empty.
+    #[kani::proof]
+    #[kani::unwind(6)]
+    #[kani::stub(std::backtrace::Backtrace::capture, bt_disabled)]
+    #[kani::stub(alloc::fmt::format, fmt_stub)]
+    fn b_ids_and_empty_payload() {
+        let a: usize = kani::any();
+        let b: usize = kani::any();
+        kani::assume(a < 9 && b < 9 && a != b);
+        assert!(KNOWN[a] != KNOWN[b], "distinct reply handler names get distinct ids");
+        let k: usize = kani::any();
+        kani::assume(k < 9);
+        let base = WasmMsg::ClearAdmin { contract_addr: String::new() };
+        let out = build(base, k, Binary::default());
+        match &out {
+            Ok(o) => {
+                assert!(o.id == KNOWN[k] && o.payload.as_slice().is_empty(), "empty raw payload stays empty");
+                assert!(ro_eq(&o.reply_on, &expected_reply_on(k)));
+            }
+            Err(_) => assert!(false),
+        }
+        kani::cover!(k == 3);
+        core::mem::forget(out);
+    }
+
     /// Round trip: what the builder of name k produced (id, payload) is fed to the real dispatcher;
     /// the handler the table names for the outcome must see the same 3 payload bytes.
     macro_rules! round_trip {
